@@ -1450,6 +1450,23 @@ MHD_websocket_decode_payload_complete (struct MHD_WebSocketStream *ws,
     {
       /* data frame */
       char data_type = ws->data_type;
+      if ((MHD_WebSocket_Opcode_Text == ws->data_type) &&
+          (MHD_WEBSOCKET_UTF8STEP_NORMAL != ws->data_utf8_step) )
+      {
+        /* RFC 6455 8.1: The text message ends within a UTF-8 sequence */
+        ws->validity = MHD_WEBSOCKET_VALIDITY_INVALID;
+        if (0 != (ws->flags
+                  & MHD_WEBSOCKET_FLAG_GENERATE_CLOSE_FRAMES_ON_ERROR))
+        {
+          MHD_websocket_encode_close (ws,
+                                      MHD_WEBSOCKET_CLOSEREASON_MALFORMED_UTF8,
+                                      0,
+                                      0,
+                                      payload,
+                                      payload_len);
+        }
+        return MHD_WEBSOCKET_STATUS_UTF8_ENCODING_ERROR;
+      }
       if ((0 != (ws->flags & MHD_WEBSOCKET_FLAG_WANT_FRAGMENTS)) &&
           (0 != is_continue))
       {
@@ -1469,6 +1486,23 @@ MHD_websocket_decode_payload_complete (struct MHD_WebSocketStream *ws,
     else
     {
       /* control frame */
+      if ((MHD_WebSocket_Opcode_Close == (ws->frame_header [0] & 0x0f)) &&
+          (MHD_WEBSOCKET_UTF8STEP_NORMAL != ws->control_utf8_step) )
+      {
+        /* RFC 6455 8.1: The close reason ends within a UTF-8 sequence */
+        ws->validity = MHD_WEBSOCKET_VALIDITY_INVALID;
+        if (0 != (ws->flags
+                  & MHD_WEBSOCKET_FLAG_GENERATE_CLOSE_FRAMES_ON_ERROR))
+        {
+          MHD_websocket_encode_close (ws,
+                                      MHD_WEBSOCKET_CLOSEREASON_MALFORMED_UTF8,
+                                      0,
+                                      0,
+                                      payload,
+                                      payload_len);
+        }
+        return MHD_WEBSOCKET_STATUS_UTF8_ENCODING_ERROR;
+      }
       *payload     = ws->control_payload;
       *payload_len = ws->payload_size;
       ws->control_payload   = 0;
